@@ -30,6 +30,7 @@ EXPLANATION = (
     "_mul_div/_imul_div/__rtruediv__, a single offset unit goes through root units; powers of non-multiplicative "
     "quantities raise unless autoconvert converts to root/base units first; _add_unit builds the delta_ twin from the "
     "same scale and reference. Does not decide numerical results.")
+EXPLANATION += " Also decided: as_delta is replaced by the registry's default_as_delta exactly when it is None (shared with C08)."
 
 SPEC_OK_FOR_MULDIV = "ok iff no offset unit, or exactly one offset unit that is the only unit, has exponent 1, and autoconvert_offset_to_baseunit is on"
 
